@@ -27,6 +27,7 @@ func init() {
 			{ID: "C19.R2", Doc: "plain accesses of Signal.err/ch and Chan.ch/closed: writes under the mutex, reads under it / after it / behind the matching flag bit", Run: c19r2},
 			{ID: "C19.R3", Doc: "first set wins: setSlow body guarded by the error bit tested under the mutex; ok only from that branch; status written atomically only", Run: c19r3},
 			{ID: "C19.R4", Doc: "close-once for every close(ch) in drpcsignal", Run: func(c *an.Ctx) { closeOnce(c, "drpcsignal") }},
+			{ID: "C19.R6", Doc: "every Signal accessor decides from ONE atomic snapshot of the status word (no result pair assembled from two loads)", Run: c19r6},
 			{ID: "C19.R5", Doc: "lazy channel: the initialiser runs only if done is still clear when re-tested under Chan.mu (first user wins)", Run: c19r5},
 		},
 	})
@@ -487,4 +488,67 @@ func c19r5(c *an.Ctx) {
 		}
 	})
 	c.Check(okFast, "(*Chan).do | fast path reads done atomically", c.P.Pos(do.Pos()), "", "the fast path does not read the done flag with an atomic load")
+}
+
+// c19r6: the lock-free accessors (Get, Err, IsSet, Signal, Set's fast path) must read the status word once; a
+// second load can observe a Set that the first did not, so (err, ok) pairs would be inconsistent.
+func c19r6(c *an.Ctx) {
+	a := A(c)
+	status := a.field("drpcsignal", "Signal", "status")
+	named := must(c.P.Named("drpcsignal", "Signal"))
+	n := 0
+	for i := 0; i < named.NumMethods(); i++ {
+		m := named.Method(i)
+		if !m.Exported() {
+			continue
+		}
+		fn := c.P.SSA.FuncValue(m)
+		if fn == nil || len(fn.Blocks) == 0 {
+			continue
+		}
+		flow := &an.Flow{Fn: fn, Init: []string{"0"}, Inline: func(call ssa.CallInstruction) *ssa.Function {
+			callee := call.Common().StaticCallee()
+			if callee == nil || len(callee.Blocks) == 0 || callee.Signature.Recv() == nil {
+				return nil
+			}
+			if !types.Identical(deref(callee.Signature.Recv().Type()), named) {
+				return nil
+			}
+			// the slow paths re-read under the mutex by design
+			if callee.Name() == "setSlow" || callee.Name() == "signalSlow" {
+				return nil
+			}
+			return callee
+		}, Step: func(st string, in ssa.Instruction) []string {
+			if call, ok := in.(*ssa.Call); ok && isAtomicLoadOf(call, status) {
+				switch st {
+				case "0":
+					return []string{"1"}
+				default:
+					return []string{"2+"}
+				}
+			}
+			return nil
+		}}
+		res := flow.Run()
+		worst := "0"
+		for _, ret := range an.Returns(fn) {
+			if !res.Reachable(ret.Block()) {
+				continue
+			}
+			for _, st := range res.Before(ret) {
+				if st > worst {
+					worst = st
+				}
+			}
+		}
+		if worst == "0" {
+			continue
+		}
+		n++
+		c.Analysed(fn)
+		c.Check(worst == "1", "(*Signal)."+m.Name()+" | decides from a single atomic load of the status word", c.P.Pos(fn.Pos()), "",
+			"the accessor loads the status word more than once on a path (directly or through another accessor): a Set landing between the loads yields an inconsistent answer, e.g. Get() returning (nil, true)")
+	}
+	c.Floor("lock-free Signal accessors", 1, n)
 }
